@@ -58,6 +58,9 @@ type FuncContract struct {
 	atAssume  map[string][]specLine
 	atBefore  map[string][]specLine
 	takes     map[string]bool
+	condTakes map[string]bool
+	ownPrimitive bool
+	freshOnly bool
 	borrows   map[string]bool
 	retNullable bool
 	maypanic  bool
@@ -285,7 +288,7 @@ func (a *Annotations) parseFile(path, pkg string) error {
 }
 
 func newFuncContract(pkg, key, file string, line int) *FuncContract {
-	return &FuncContract{pkg: pkg, key: key, nullable: map[string]bool{}, loopInv: map[int][]specLine{}, loopMod: map[int][]string{}, at: map[string][]specLine{}, atAssume: map[string][]specLine{}, atBefore: map[string][]specLine{}, takes: map[string]bool{}, borrows: map[string]bool{}, file: file, line: line}
+	return &FuncContract{pkg: pkg, key: key, nullable: map[string]bool{}, loopInv: map[int][]specLine{}, loopMod: map[int][]string{}, at: map[string][]specLine{}, atAssume: map[string][]specLine{}, atBefore: map[string][]specLine{}, takes: map[string]bool{}, condTakes: map[string]bool{}, borrows: map[string]bool{}, file: file, line: line}
 }
 
 func splitWord(s string) (string, string) {
@@ -414,10 +417,18 @@ func (a *Annotations) funcClause(cf *FuncContract, word, rest string, sl specLin
 		for _, p := range strings.Fields(rest) {
 			cf.takes[p] = true
 		}
+	case "takes_on_success":
+		for _, p := range strings.Fields(rest) {
+			cf.condTakes[p] = true
+		}
 	case "borrows":
 		for _, p := range strings.Fields(rest) {
 			cf.borrows[p] = true
 		}
+	case "own_primitive":
+		cf.ownPrimitive = true
+	case "fresh_only":
+		cf.freshOnly = true
 	case "maypanic":
 		cf.maypanic = true
 	case "pure":
